@@ -294,6 +294,7 @@ func init() {
 		}
 		jobs := []vx.Job{
 			{Scenario: "dgram.pipe", Bound: -1, Weight: 5},
+			{Scenario: "dgram.pipe", Params: vx.P("crosscheck", "1"), Bound: 2, Weight: 5},
 			{Scenario: "dgram.pipe", Params: vx.P("short", "1"), Bound: -1, Weight: 5},
 			{Scenario: "mux.dgram", Params: vx.P("streams", "1", "sizes", "3,5"), Bound: b(2, 3), Weight: 6},
 			{Scenario: "mux.dgram", Params: vx.P("streams", "1", "sizes", "3,5", "rbufdelta", "-1"), Bound: b(2, 3), Weight: 6},
